@@ -288,9 +288,17 @@ def near_tie(case, rec, op):
 
 def compare_twin(case, a, b):
     """first difference between the object under test and the all-blocking twin, up to and including the first EOF"""
+    pend_prev = ''
     for n, (ra, rb) in enumerate(zip(a['recs'], b['recs'])):
         if near_tie(case, ra, case['ops'][n]) or near_tie(case, rb, case['ops'][n]):
             return None
+        # text that arrived during a call that timed out is pending *and* searchable: the search buffer cannot be empty then
+        if (ra['out'] == 'TIMEOUT' or ra['after'] == 'TIMEOUT') and ra['before'] is not None and ra['buffer'] is not None:
+            if len(ra['before']) > len(pend_prev) and ra['buffer'] == '':
+                return n, 'pending-vs-buffer', ra['before'], ra['buffer']
+            pend_prev = ra['before']
+        elif ra['buffer'] is not None:
+            pend_prev = ra['buffer']
         # done_window_data_conserved / Inv: after a TIMEOUT `before` is all pending text and the search buffer is a suffix of it
         if (ra['out'] == 'TIMEOUT' or ra['after'] == 'TIMEOUT') and ra['before'] is not None and ra['buffer'] is not None \
                 and not ra['before'].endswith(ra['buffer']):
@@ -447,8 +455,10 @@ KNOWN_CASES = [
 def classify(case, diff, rec=None):
     n, f, va, vb = diff
     op = case['ops'][n]
-    timed_out = (va == 'TIMEOUT') or (rec is not None and rec.get('after') == 'TIMEOUT')
-    if op['mode'] == 'a' and op['T'] == 0 and f == 'out' and timed_out:
+    timed_out = (va == 'TIMEOUT') or (rec is not None and (rec.get('after') == 'TIMEOUT' or rec.get('out') == 'TIMEOUT'))
+    if op['mode'] == 'a' and op['T'] == 0 and timed_out and f != 'pending-vs-buffer':
+        # the awaited call gave up without examining what was readable; what then differs (outcome, or only the search buffer
+        # because the data was appended in the done-window instead of being searched and trimmed) is the known finding
         return KNOWN_T0
     return 'async/parity/%s' % f
 
